@@ -209,6 +209,39 @@ def run(model, rep):
         rep.check(not lost, 'C10.E2E', mi.loc(), 'preserve_globals given as %s: builtin and unbound names the module uses' % spelling, 'every use keeps the preserved spelling (no alias)',
                   'preserved names that the module only uses are redirected through an alias or renamed: %s (uses in the output, uses in the source) -- output: %r' % (lost, text_[:160]), key=key)
     rep.sensitive(aliased_controls >= 1, 'the builtin len, which is not preserved, is not aliased in the probe: the rule for preserved builtins cannot see anything')
+    # one list object used for several calls (a build script minifying a package): "asking to preserve a name never changes anything other than
+    # the renaming of that name" - neither the list itself nor, through it, what the next module keeps
+    from ..absprint import print_obj
+    from ..minrun import minify_tree
+    first = ('__all__ = ["load_config", "render_page"]\ndef load_config(path_name):\n    return path_name, path_name\ndef render_page(page_body):\n    return page_body, page_body\n'
+             'def main_entry(argument_list):\n    return load_config(argument_list), render_page(argument_list)\n')
+    second = ('def load_config(path_name):\n    return path_name, path_name\ndef render_page(page_body):\n    return page_body, page_body\n'
+              'def main_entry(argument_list):\n    return load_config(argument_list), render_page(argument_list), load_config, render_page\n')
+    for which in ('preserve_globals', 'preserve_locals'):
+        for opts in ({'rename_globals': True, 'rename_locals': True}, {'rename_globals': False, 'rename_locals': True, 'hoist_literals': True}):
+            key = 'C10.E2E|list reused|%s|%s' % (which, sorted(k for k, v in opts.items() if v))
+            keep = ['main_entry', 'argument_list']
+            texts = []
+            err = None
+            for (src_, lst) in ((first, keep), (second, keep), (second, ['main_entry', 'argument_list'])):
+                kind, out, mod = minify_tree(model, src_, dict(opts, **{which: lst}))
+                if kind != 'ok':
+                    err = 'minify raises %s' % (out,)
+                    break
+                kind, text = print_obj(model, mod)
+                if kind != 'ok':
+                    raise AnalysisError('UNDECIDED: printing a probe: %s %s' % (kind, text))
+                texts.append(text)
+            if err:
+                rep.violation('C10.E2E', mi.loc(), '%s reused for two calls' % which, err, key=key)
+                continue
+            problems = []
+            if keep != ['main_entry', 'argument_list']:
+                problems.append('the caller\'s list comes back as %r' % (keep,))
+            if texts[1] != texts[2]:
+                problems.append('the second module is minified to %r with the reused list and to %r with a fresh list of the same names' % (texts[1][:120], texts[2][:120]))
+            rep.check(not problems, 'C10.E2E', mi.loc(), 'one list object passed as %s to two calls (%s), the first module has a literal __all__' % (which, ', '.join(sorted(k for k, v in opts.items() if v))),
+                      'the list is unchanged and the second call gives what a fresh list gives', '; '.join(problems), key=key)
     # white-box: written against the permission gates and the assignment loop by name; not evaluated when those do not exist under their names
     def guard():
         # ---------------- GUARD: gates pin exactly the preserved names (abstract evaluation)
